@@ -93,6 +93,28 @@ fn binary_cases() -> &'static Vec<String> {
     })
 }
 
+/// Multi-level shapes an evaluator might fuse into one library call (hypot for sqrt(a^2+b^2), fma, expm1 ...): each
+/// node has to be the IEEE operation on its operands' values, so the whole must equal the node-by-node reference.
+fn idiom_cases() -> &'static Vec<String> {
+    static CELL: OnceLock<Vec<String>> = OnceLock::new();
+    CELL.get_or_init(|| {
+        let t = ["sqrt(X^2+Y^2)", "sqrt(X²+Y²)", "sqrt(pow(X,2)+pow(Y,2))", "sqrt(X*X+Y*Y)", "(X^2+Y^2)^0.5", "sqrt(X^2-Y^2)", "X*Y+Z", "Z+X*Y", "X*Y-Z", "(X+Y)/2", "X/Y*Y", "X*Y/Y", "X-X+Y", "sqrt(X)^2", "sqrt(X^2)", "abs(X)^2", "X^0.5", "X^(1/2)", "X^(0-1)", "1/(1/X)", "X*pi/180", "X/180*pi", "X*180/pi", "pi*X/180", "X*e/e", "X^2^0.5", "X%Y+Y", "mod(X,Y)*Y", "floor(X/Y)*Y+X%Y", "trunc(X/Y)", "round(X*Y)/Y", "X*0.5", "X/2", "X+X", "2*X", "X*X*X", "X^3", "X^2*X", "-X+Y", "Y-X", "-(X-Y)", "X*(0-1)", "abs(X-Y)", "ceil(X-0.5)", "floor(X+0.5)"];
+        let xs = ["0.1", "0.4", "3", "4", "0.7", "19", "57", "23", "1.5", "(0-2.5)", "@", "123456789.125", "0.3", "9007199254740993", "6", "12"];
+        let zs = ["0.2", "@", "7"];
+        let mut v = Vec::new();
+        for f in t {
+            for x in xs {
+                for y in if f.contains('Y') { xs.to_vec() } else { vec![""] } {
+                    for z in if f.contains('Z') { zs.to_vec() } else { vec![""] } {
+                        v.push(f.replace('X', x).replace('Y', y).replace('Z', z));
+                    }
+                }
+            }
+        }
+        v
+    })
+}
+
 pub fn profile() -> Profile {
     let mut p = Profile::full(Ev::F64);
     p.funcs.retain(|f| FUNCS.contains(&f.name) || f.name == "mod");
@@ -117,11 +139,13 @@ impl Prop for C05Prop {
             Sub { name: "unary", kind: SubKind::Enum { count: unary_cases().len() as u64 } },
             Sub { name: "binary", kind: SubKind::Enum { count: binary_cases().len() as u64 } },
             Sub { name: "long", kind: SubKind::Enum { count: super::long::all(true).iter().filter(|x| x.0 == Ev::F64).count() as u64 } },
+            Sub { name: "idioms", kind: SubKind::Enum { count: idiom_cases().len() as u64 } },
             Sub { name: "tree", kind: SubKind::Random { cases: tier.pick(1_000_000, 50_000_000), len: 160 } },
         ]
     }
     fn gen_enum(&self, sub: &str, idx: u64, _tier: Tier) -> Option<Case> {
         let s = match sub {
+            "idioms" => idiom_cases().get(idx as usize)?.clone(),
             "long" => super::long::all(true).iter().filter(|x| x.0 == Ev::F64).nth(idx as usize)?.1.clone(),
             "unary" => unary_cases().get(idx as usize)?.clone(),
             _ => binary_cases().get(idx as usize)?.clone(),
